@@ -416,8 +416,25 @@ int scan_from_with(var input, int pos, const char* fmt, var args) {
       }
       
       else if (strchr("diouxX", *fmt)) {
+        /* scanf stores as many bytes as the length modifier names */
+        bool sign = *fmt is 'd' or *fmt is 'i';
         long tmp = 0;
-        int err = format_from(input, pos, fmt_buf, &tmp, &off);
+        int err = 0;
+        if (strpbrk(fmt_buf, "ljzt")) {
+          err = format_from(input, pos, fmt_buf, &tmp, &off);
+        } else if (strstr(fmt_buf, "hh")) {
+          signed char t = 0;
+          err = format_from(input, pos, fmt_buf, &t, &off);
+          tmp = sign ? (long)t : (long)(unsigned char)t;
+        } else if (strchr(fmt_buf, 'h')) {
+          short t = 0;
+          err = format_from(input, pos, fmt_buf, &t, &off);
+          tmp = sign ? (long)t : (long)(unsigned short)t;
+        } else {
+          int t = 0;
+          err = format_from(input, pos, fmt_buf, &t, &off);
+          tmp = sign ? (long)t : (long)(unsigned int)t;
+        }
         if (err < 1) { throw(FormatError, "Unable to input Int!"); }
         pos += off;
         assign(a, $I(tmp));
